@@ -15,7 +15,7 @@ MANIFEST = {
 		'independent boolean predicate), every broken reference of each kind is reported on the declaring struct and member, and nothing '
 		'is reported outside the carriers of the site; the model is compared with the Python AstValidator (real parser, real '
 		'AstPostProcessor) on both shipped schema sets, on random consistent schemas and on every (site x breakage kind) of those, and the '
-		'property oracle (no exception, a carrier named, no non-carrier named, CLI exit status 2) runs on the implementation.',
+		'property oracle (no exception, a carrier named, no non-carrier named, CLI exit status 2) runs on the implementation. Initializer constants: completeness for what the code checks, with the type-inequality formulation refuted on a hand-built AST (Cats/ValidateProofs2.v).',
 	'design_ref': 'DESIGN.md section 4, C06',
 	'technique': 'Coq proof over regenerated model + vm_compute correspondence with the Python implementation',
 }
